@@ -83,6 +83,32 @@ Proof.
   rewrite H. reflexivity.
 Qed.
 
+(* the exception list only selects the wrapper: with one entry per statement the body is the full
+   export body, whichever statements raised *)
+Lemma build_body_full : forall l excs, length excs = length l -> build_body l excs = export_body l.
+Proof.
+  induction l as [|s r IH]; intros [|e es] H; simpl in H; try discriminate; [reflexivity|].
+  cbn [build_body]. change (export_body (s :: r)) with (export_stmt s ++ export_body r).
+  f_equal. apply IH. lia.
+Qed.
+
+Theorem export_reexec_complete t raised : export_reexec t raised = export t.
+Proof.
+  unfold export_reexec, export, per_statement_exceptions. apply build_body_full.
+  rewrite map_length, seq_length. reflexivity.
+Qed.
+
+(* a shorter list (re-execution loop left early without padding) silently truncates the function *)
+Theorem build_body_short_truncates : exists l excs,
+  length excs < length l /\ length (build_body l excs) < length (export_body l).
+Proof.
+  exists [ {| bound := Some 0%N; uses := []; sty := None; asserts := []; conv := true; node := 1%N |};
+           {| bound := Some 1%N; uses := []; sty := None;
+              asserts := [{| a_root := Some 1%N; a_render := true; a_id := 2%N |}]; conv := true; node := 2%N |} ],
+         [true].
+  vm_compute. split; lia.
+Qed.
+
 (* the code before the fix loses the assertion of an asserted, otherwise unused value *)
 Theorem export_orig_drops : exists t,
   WF t /\ ascoped [] (stmts t) /\
